@@ -27,10 +27,14 @@ def cell_text(v):
 
 
 def write_table(path, groups, metrics, subjects, table):
+    cols = [(gi, mi) for gi in range(len(groups)) for mi in range(len(metrics))]
+    # every third kind of table has its columns metric-major (as after merging or editing a file): columns are found by their names
+    if (len(groups) + len(metrics) + len(subjects)) % 3 == 0:
+        cols.sort(key=lambda c: (c[1], c[0]))
     with open(path, "w") as f:
-        f.write("\t".join(["subject_name"] + [f"{g}-{m}" for g in groups for m in metrics]) + "\n")
+        f.write("\t".join(["subject_name"] + [f"{groups[gi]}-{metrics[mi]}" for gi, mi in cols]) + "\n")
         for s, row in zip(subjects, table):
-            f.write("\t".join([s] + [cell_text(v) for v in row]) + "\n")
+            f.write("\t".join([s] + [cell_text(row[gi * len(metrics) + mi]) for gi, mi in cols]) + "\n")
 
 
 def finite_or_none(v):
@@ -128,8 +132,12 @@ def one_table(ctx, groups, metrics, subjects, table, src):
 
 def check_lookup(ctx, inp, st, groups, metrics, subjects, cols):
     for si, s in enumerate(subjects):
-        with quiet():
-            one = st.get_one_subject(s)
+        try:
+            with quiet():
+                one = st.get_one_subject(s)
+        except Exception as e:
+            ctx.violation(f"get_one_subject('{s}') raised {type(e).__name__}: {str(e)[:100]} on a table that holds a row for that subject", inp, key={"kind": "lookup"})
+            return
         for (g, m), col in cols.items():
             got = one[g][m]
             want = col[si]
